@@ -56,6 +56,8 @@ CLAIMED.update({
              note=SRV_NOTE + " Covered: threadless server + threaded client (as fiber). Not covered: threaded server stop/restart accounting.", technique="Lean 4 proof (event laws) + differential correspondence + lifecycle oracles", design="6 C18"),
  "C09": dict(text="Lean theorems on the decision functions of both slaves, for every ASDU octet string, handler set and handler result: wrong_cot (exactly one mirror with 45), callback_once (allowed cause, complete object, CS104 address zero: exactly one callback with the decoded argument), nonzero_ioa (47), truncated_no_callback, unhandled_gets_44, handled_stops, negative_mirrors + negative_cause (response = request with only the cause octet rewritten). Tie: near-exhaustive differential (type x COT x flags x IOA x truncation x handler subsets) on both real handleASDU functions under ASan + 'at most one response' oracle. Two genuine defects repaired (CS101 double response, CS104 C_TS_TA_1).",
              note="Trusted: Lean kernel + standard axioms; hand-written decision model Iec.Dispatch tied by the differential of this check; decoder = Iec.Asdu.getElement (C01/C02). Partial: client command builders not modelled.", technique="Lean 4 proof (case analysis of the decision table) + exhaustive differential", design="6 C09"),
+ "C17": dict(text="Partial (races not decided). Regenerated model: translate/locks.py turns every function of the six lock-using files into a lock skeleton (clang AST) on every run. Lean: exec_sound (the collecting interpreter covers every outcome of the path semantics Run, all branch outcomes and loop trip counts) => every_path_releases_what_it_took, no_path_faults for all generated skeletons (kernel evaluation); internal_lock_order_acyclic (rank certificate over held->waited edges through calls and thread joins); callbacks_outside_locks_partial (application callbacks are entered lock-free except at three recorded sites = known findings, reproduced on the real code). Failing-input search: threaded server/client under PRNG schedules behind the simulated HAL with semaphore monitors. Two genuine defects repaired (STOPDT double post; listener joining under openConnectionsLock).",
+             note="Trusted: Lean kernel + standard axioms; translate/locks.py (syntax transcription); lock classes by static type+field; raw-message hook assumed not to re-enter the API. NOT decided: data-race freedom (no lockset model) - stated in DESIGN.md.", technique="Lean 4 proof (abstract-interpretation soundness + kernel evaluation on a model regenerated from source) + schedule search on the real code", design="6 C17"),
 })
 
 NOT_YET = "not claimed yet in this round: the Lean model/theorems and the correspondence harness for this property are still being built (see DESIGN.md section 10 for the order); no other technique is substituted"
